@@ -67,6 +67,17 @@ def inherited (m : Mod → Rat) (t : Option (List Mod) → Rat) (a : Annotation)
   modSum m a.labile + modSum m a.unknown + t a.static
 
 
+/-- intervals are inside `0..n`, non-empty, and no cut falls strictly inside one -/
+def CutsOK (ivs : Option (List Interval)) (n : Nat) (cuts : List Nat) : Prop :=
+  ∀ L, ivs = some L → ∀ iv ∈ L, 0 ≤ iv.start ∧ iv.start < iv.stop ∧ iv.stop ≤ (n : Int) ∧
+    ∀ c ∈ cuts, ¬ (iv.start < (c : Int) ∧ (c : Int) < iv.stop)
+
+/-- interval modifications of the intervals lying inside `[lo, hi]` -/
+def ivSumIn (m : Mod → Rat) (ivs : Option (List Interval)) (lo hi : Int) : Rat :=
+  match ivs with
+  | none => 0
+  | some L => ((L.filter fun iv => decide (lo ≤ iv.start ∧ iv.stop ≤ hi)).map fun iv => modSum m iv.mods).sum
+
 /-! ### concrete annotations used by the non-vacuity examples -/
 
 /-- `{100}[Ac]-P[Ph]E(PT)[1]... ` : labile, both termini, two residue mods, two adjacent intervals -/
